@@ -10,8 +10,9 @@
   `lib : Action → Res`; that the real executable's status/stdout agree with the in-process
   library result is what the correspondence harness (harness/src/props/c20.rs) tests.
 
-  Lower-casing is ASCII lower-casing (see the declaration at the top of Cli.lean): the lint
-  theorems are exact for texts whose non-ASCII characters are fixed by `char::to_lowercase`.
+  "Lower-case" is `text.to_lowercase() == text` with Rust's full Unicode mapping, modelled by
+  `isLowerText` (UnicodeLower.lean: no ASCII capital, no character of the table of characters
+  that `char::to_lowercase` changes; the table is compared with the toolchain on every run).
 -/
 import DuckModel.Cli
 import DuckModel.Lemmas.CliLemmas
@@ -20,7 +21,7 @@ namespace Duck
 open Duck.Cli Duck.Generated
 
 /-- a value that lower-casing leaves alone (an absent value counts as lower-case) -/
-def Cli.LowerFixed (o : Option Str) : Prop := ∀ t, o = some t → asciiLower t = t
+def Cli.LowerFixed (o : Option Str) : Prop := ∀ t, o = some t → isLowerText t = true
 
 /-- the script instruction is all lower-case where the linter looks: label, command, output -/
 def Cli.LowerInstr (s : ScriptInstr) : Prop :=
@@ -122,10 +123,12 @@ theorem C20_exit_status (lib : Action → Res) (args : List Str) :
   | ok => simp [exitStatus]
   | err m => simp [exitStatus, errorPrefix]
 
-/-- lower-casing fixes a text exactly when it has no ASCII capital letter -/
+/-- lower-casing fixes a text exactly when it has no ASCII capital letter and no character of
+    the table of non-ASCII characters that `char::to_lowercase` changes (`Ä`, `É`, `Σ`, …) -/
 theorem C20_lower_fixed_iff (t : Str) :
-    asciiLower t = t ↔ ∀ c ∈ t, ¬ ('A'.toNat ≤ c.toNat ∧ c.toNat ≤ 'Z'.toNat) :=
-  asciiLower_fixed_iff t
+    isLowerText t = true ↔ ∀ c ∈ t, ¬ ('A'.toNat ≤ c.toNat ∧ c.toNat ≤ 'Z'.toNat) ∧
+      ∀ r ∈ notLowerRanges, ¬ (r.1 ≤ c.toNat ∧ c.toNat ≤ r.2) :=
+  isLowerText_iff t
 
 /-- the lint accepts exactly when the file parses and the label, command and output (when
     present) of every script instruction are fixed points of lower-casing.  `parsed` is the
@@ -268,6 +271,11 @@ example : lintText "echo a\nx = Set b".toList = .fail { line := some 2 } .comman
 example : lintText "Out = set b".toList = .fail { line := some 1 } .output := by decide +kernel
 -- label is reported before command and output of the same line
 example : lintText ":L O = C".toList = .fail { line := some 1 } .label := by decide +kernel
+-- non-ASCII capitals count (Rust lower-cases with the full Unicode mapping), non-ASCII lower-case letters pass
+example : lintText "Äpfel = set 1".toList = .fail { line := some 1 } .output := by decide +kernel
+example : lintText ":Étiquette\necho hi".toList = .fail { line := some 1 } .label := by decide +kernel
+example : lintText ":é ß2 = set 日本".toList = .ok := by decide +kernel
+example : isLowerText "Σ".toList = false ∧ isLowerText "σς".toList = true ∧ isLowerText "ǅ".toList = false := by decide +kernel
 -- a text that does not parse
 example : lintText "echo \"abc".toList = .parseError ⟨.missingEndQuotes, { line := some 1 }⟩ := by decide +kernel
 example : displayRuntime { line := some 2, source := some "a.ds".toList } (lintMessage .label) =
